@@ -869,6 +869,17 @@ def call_ext(it, dotted, args, kwargs):
                 ks = [concrete_number(k) for k in keys]
             elif all(isinstance(k, str) for k in keys):
                 ks = keys
+            elif len(keys) <= 4 and all(isinstance(k, (Rat, int, Fr)) for k in keys):
+                # a few symbolic numbers: insertion sort whose comparisons are ordinary (forking) sign tests
+                order = []
+                for i in range(len(items)):
+                    pos = len(order)
+                    while pos > 0 and it.truth(it.compare_vals('lt', keys[i], keys[order[pos - 1]])):
+                        pos -= 1
+                    order.insert(pos, i)
+                if rev:
+                    order.reverse()
+                return [items[i] for i in order]
             else:
                 raise Undecidable('sorted over symbolic values')
             order = sorted(range(len(items)), key=lambda i: ks[i], reverse=rev)      # stable, like the builtin
